@@ -12,6 +12,8 @@
    }  (indices are 1-based positions into P)
    {op:"rigid", P, e:[a,b,c] Euler quarter turns, t, got:[int points]}   translate(rotate(P, e*pi/2), t)
    {op:"unwrap", C:[points], bonds:[[i,j]..], B, gotU:[int points], gotR:[int points]}
+      (systems wrapped atom by atom, or cut by one face / edge / corner of the box; cubic,
+      anisotropic and elongated boxes)
    A disagreement prints <<"MISMATCH", trace, event, what, position, expected>>. *)
 EXTENDS GeomOps, SequencesExt, Json, IOUtils
 
@@ -101,11 +103,25 @@ JudgeUnwrap(t, k, e) ==
                 /\ molUnique(molOf(n)) =>
                       /\ VSub(e.gotR[n], e.gotR[first(molOf(n))]) = VSub(R[n], R[first(molOf(n))])
                       /\ (~onFace(molOf(n)) => e.gotR[n] = R[n])]
-  IN Report(t, k, "unwrapU", okU, U) /\ Report(t, k, "unwrapR", okR, R)
+      \* the property's own clause, whatever the rest of the molecule looks like: two bonded atoms
+      \* that follow each other in the array order of their molecule end at their minimum-image
+      \* separation (where that image is unique and inside the property's range Dom_MinImage)
+      lo(n) == MinI(e.bonds[n][1], e.bonds[n][2])
+      hi(n) == MaxI(e.bonds[n][1], e.bonds[n][2])
+      adjacent(i, j) == i < j /\ j \in molOf(i) /\ \A x \in molOf(i) : ~(i < x /\ x < j)
+      okB == [n \in DOMAIN e.bonds |->
+                LET d == VSub(C[hi(n)], C[lo(n)]) IN
+                (adjacent(lo(n), hi(n)) /\ Dom_MinImage(d, B) /\ UniqueMinImage(d, B)) =>
+                    VSub(e.gotR[hi(n)], e.gotR[lo(n)]) \in MinImages(d, B, 2)]
+      expB == [n \in DOMAIN e.bonds |-> ImplDisp(VSub(C[hi(n)], C[lo(n)]), B)]
+  IN Report(t, k, "unwrapU", okU, U) /\ Report(t, k, "unwrapR", okR, R) /\ Report(t, k, "unwrapBond", okB, expB)
 
+\* the recorder must stay inside Dom_DyadicBox (a box outside is a defect of the generator)
+BoxesOf(e) == IF e.op = "measure" THEN {e.bo[n] : n \in DOMAIN e.bo} ELSE IF e.op = "unwrap" THEN {e.B} ELSE {}
 Judge(t, k) ==
   LET e == Tr[t][k] IN
-  CASE e.op = "measure" -> JudgeMeasure(t, k, e)
+  CASE \E B \in BoxesOf(e) : ~Dom_DyadicBox(B) -> PrintT(<<"MISMATCH", t, k, "box outside Dom_DyadicBox", 0, 0>>)
+    [] e.op = "measure" -> JudgeMeasure(t, k, e)
     [] e.op = "rigid"   -> JudgeRigid(t, k, e)
     [] e.op = "unwrap"  -> JudgeUnwrap(t, k, e)
     [] OTHER -> PrintT(<<"MISMATCH", t, k, "unknown op", 0, 0>>)
